@@ -130,7 +130,7 @@ def random_scripts(rng, mods, stack, n_inv=10, bidir=False):
             cl = []
             for _ in range(rng.choice([0, 1, 1, 2, 2, 3])):
                 k = rng.random()
-                eat = rng.choice([0, 0, 0, 1, 2]) if stack else 0
+                eat = rng.choice([0, 0, 0, 1, 2, 10]) if stack else 0
                 if k < 0.45 and gates[m]:
                     cl.append(cmd("send", rng.choice(gates[m]), 0, rng.choice([1, 1, 2, 3]), eat))
                 elif k < 0.6 and gates[m]:
